@@ -6,6 +6,7 @@ import (
 	"context"
 	"fmt"
 	"os"
+	"sync"
 	"testing"
 	"time"
 
@@ -360,4 +361,182 @@ func runC13(c c13Case, o *vfutil.Obs) *vfutil.Failure {
 
 func TestVerifC13a(t *testing.T) {
 	vfutil.Run(t, vfutil.Spec[c13Case]{ID: "C13", Gen: genC13, Run: runC13})
+}
+
+// ---- C13b: concurrent group subscribes (built with -race)
+
+type c13bSub struct {
+	G, C, E int
+}
+
+type c13bCase struct {
+	Rounds [][]c13bSub `json:"rounds"`
+	Cancel []int       `json:"cancel"` // after each round: which fraction of the active subscriptions the clients cancel (0-100)
+}
+
+func genC13b(t *rapid.T) c13bCase {
+	var c c13bCase
+	nr := rapid.IntRange(1, 4).Draw(t, "rounds")
+	for r := 0; r < nr; r++ {
+		k := rapid.IntRange(2, 8).Draw(t, "k")
+		var round []c13bSub
+		for i := 0; i < k; i++ {
+			round = append(round, c13bSub{G: rapid.IntRange(0, 1).Draw(t, "g"), C: rapid.IntRange(0, 3).Draw(t, "c"), E: rapid.IntRange(0, 3).Draw(t, "e")})
+		}
+		c.Rounds = append(c.Rounds, round)
+		c.Cancel = append(c.Cancel, rapid.SampledFrom([]int{0, 0, 50, 100}).Draw(t, "cancel"))
+	}
+	return c
+}
+
+func runC13b(c c13bCase, o *vfutil.Obs) *vfutil.Failure {
+	dir := vfutil.TempDir("c13b")
+	defer os.RemoveAll(dir)
+	s := vfBare(dir, "me")
+	p, err := vfPartition(s, "foo", 0, nil)
+	if err != nil {
+		return vfutil.Failf("harness/partition", "%v", err)
+	}
+	defer p.Close()
+	p.log.Append([]*commitlog.Message{{MagicByte: 1, Value: []byte("m"), Timestamp: 1000, LeaderEpoch: 1, Headers: map[string][]byte{}, Offset: -1}})
+	p.log.SetHighWatermark(0)
+	type live struct {
+		spec   c13bSub
+		sub    *subscription
+		cancel context.CancelFunc
+	}
+	var active []*live
+	defer func() {
+		for _, l := range active {
+			l.cancel()
+			l.sub.Close()
+		}
+	}()
+	contended := false
+	for ri, round := range c.Rounds {
+		var (
+			mu       sync.Mutex
+			accepted []*live
+			wg       sync.WaitGroup
+			start    = make(chan struct{})
+		)
+		for _, sp := range round {
+			wg.Add(1)
+			go func(sp c13bSub) {
+				defer wg.Done()
+				ctx, cancel := context.WithCancel(context.Background())
+				req := &client.SubscribeRequest{Stream: "foo", Partition: 0, StartPosition: client.StartPosition_NEW_ONLY,
+					Consumer: &client.Consumer{GroupId: fmt.Sprintf("g%d", sp.G), ConsumerId: fmt.Sprintf("c%d", sp.C), GroupEpoch: uint64(sp.E)}}
+				<-start
+				sub, st := p.Subscribe(ctx, req)
+				if st != nil {
+					cancel()
+					return
+				}
+				mu.Lock()
+				accepted = append(accepted, &live{spec: sp, sub: sub, cancel: cancel})
+				mu.Unlock()
+			}(sp)
+		}
+		close(start)
+		wg.Wait()
+		active = append(active, accepted...)
+		// what api.Subscribe does for a cancelled subscription: it returns
+		var still []*live
+		for _, l := range active {
+			select {
+			case <-l.sub.Closed():
+				l.cancel()
+				l.sub.Close()
+			default:
+				still = append(still, l)
+			}
+		}
+		active = still
+		// at most one active subscription per group, and it is the registered one
+		deadline := time.Now().Add(22 * time.Second)
+		for {
+			var f *vfutil.Failure
+			for g := 0; g < 2; g++ {
+				var mine []*live
+				for _, l := range active {
+					if l.spec.G == g {
+						mine = append(mine, l)
+					}
+				}
+				gid := fmt.Sprintf("g%d", g)
+				reg := p.GetGroupConsumer(gid)
+				if len(mine) > 1 {
+					var ds []string
+					for _, l := range mine {
+						ds = append(ds, fmt.Sprintf("c%d/e%d", l.spec.C, l.spec.E))
+					}
+					f = vfutil.Failf("C13/two-active-subscriptions/concurrent-subscribes", "round %d: group %s has %d active (not cancelled) subscriptions after concurrent subscribes: %v", ri, gid, len(mine), ds)
+				} else if len(mine) == 1 && (reg == nil || reg.sub != mine[0].sub) {
+					f = vfutil.Failf("C13/active-subscription-unregistered/concurrent-subscribes", "round %d: the active subscription of group %s is not the registered one", ri, gid)
+				} else if len(mine) == 1 {
+					// nobody with an older epoch than a subscriber that was refused... the holder has the newest epoch seen this round or earlier
+					for _, l := range accepted {
+						if l.spec.G == g && l != mine[0] && l.spec.E > mine[0].spec.E {
+							f = vfutil.Failf("C13/older-epoch-holds-partition", "round %d: group %s is held by epoch %d although a subscriber with epoch %d was accepted in the same round", ri, gid, mine[0].spec.E, l.spec.E)
+						}
+					}
+				}
+				if len(mine) >= 1 {
+					n := 0
+					for _, sp := range round {
+						if sp.G == g {
+							n++
+						}
+					}
+					if n >= 2 {
+						contended = true
+					}
+				}
+			}
+			if f == nil {
+				break
+			}
+			if time.Now().After(deadline) {
+				return f
+			}
+			// a replaced subscription is cancelled synchronously inside Subscribe, so
+			// these states do not heal; retry briefly only to be safe against clean-up lag
+			time.Sleep(time.Millisecond)
+			still = still[:0]
+			for _, l := range active {
+				select {
+				case <-l.sub.Closed():
+					l.cancel()
+					l.sub.Close()
+				default:
+					still = append(still, l)
+				}
+			}
+			active = still
+			if time.Since(deadline.Add(-22*time.Second)) > 50*time.Millisecond {
+				return f
+			}
+		}
+		// clients cancel some of the active subscriptions
+		keep := active[:0]
+		for i, l := range active {
+			if c.Cancel[ri] > 0 && (i*100/len(active)) < c.Cancel[ri] {
+				l.cancel()
+				l.sub.Close()
+				continue
+			}
+			keep = append(keep, l)
+		}
+		active = keep
+		time.Sleep(2 * time.Millisecond) // let the cancelled loops clean up
+	}
+	if contended {
+		o.NonTrivial()
+	}
+	return nil
+}
+
+func TestVerifC13b(t *testing.T) {
+	vfutil.Run(t, vfutil.Spec[c13bCase]{ID: "C13", Gen: genC13b, Run: runC13b})
 }
